@@ -197,7 +197,7 @@ func zzRunCase(c *zzCase) (res *zzResult) {
 		}()
 		f()
 	}()
-	limit := 3 * time.Second
+	limit := 8 * time.Second
 	tick := time.NewTicker(50 * time.Millisecond)
 	defer tick.Stop()
 	deadline := time.After(limit)
